@@ -28,7 +28,7 @@ TECHNIQUE = {
     "C08": "runtime monitoring: metamorphic monitor (trivia variants of one token sequence) with behavioural fingerprint and choice-function probe",
     "C09": "runtime monitoring: metamorphic pair checker (equal / must-differ / must-raise relations) plus hashed-key probe",
     "C10": "runtime monitoring: relational checker over results of one unit under many weight vectors (ramp monotonicity, interval intersection in exact rationals) plus hash probe",
-    "C11": "runtime monitoring: operation-history checker against an executable sequential model (fresh evaluator of the last accepted text), exhaustive short histories + random",
+    "C11": "runtime monitoring: operation-history checker against an executable sequential model (fresh evaluator of the last accepted text), exhaustive short histories + random, with source-free failpoints (sys.monitoring PY_START fault injection) and near-recursion-limit calls",
     "C12": "runtime monitoring: differential against an independent implementation of the published scheme, fixed known answers, golden ids",
     "C13": "runtime monitoring: harmless-twin differential with masked-AST comparison, sys.monitoring CALL events from generated code, builtins sentinels and audit hooks",
     "C14": "runtime monitoring: translation validation by execution (exec of generated module text vs in-memory evaluator) over generated programs, both layouts",
